@@ -130,7 +130,7 @@ func loadProgram(repo, pkgKey, prop string) (*Program, error) {
 	prog, spkgs := ssautil.AllPackages(pkgs, ssa.InstantiateGenerics)
 	prog.Build()
 	pr := &Program{ssa: prog, pkgs: pkgs, target: spkgs[0], targetPkg: pkgs[0], repo: repo, overlayFiles: files,
-		initPkgs: map[string]bool{"io": true, "errors": true, "strconv": true, "os": false,
+		initPkgs: map[string]bool{"encoding/base64": true, "io": true, "errors": true, "strconv": true, "os": false,
 			"github.com/hashicorp/serf/coordinate": true, "github.com/hashicorp/serf/serf": true,
 			"github.com/hashicorp/memberlist": false}}
 	if ep := prog.ImportedPackage("errors"); ep != nil {
